@@ -18,7 +18,10 @@ def main():
     ok = True
     with ThreadPoolExecutor(max_workers=2) as ex:
         f_libs = ex.submit(vlib.build_repo_libs, list(vlib.LIB_TARGETS.keys()))
-        targets = ["CelerVerif"] + ["celer_model_" + p.lower() for p in manifest_data.CHECKS]
+        # only what the claimed checks need (other modules may be work in progress)
+        targets = ["celer_model_num"]
+        for p in manifest_data.CHECKS:
+            targets += ["celer_model_" + p.lower(), "CelerVerif.Props." + p]
         f_lean = ex.submit(vlib.lean_build, targets, 7200)
         okl, log, dt = f_libs.result()
         print(f"[setup] repo libraries: {'ok' if okl else 'FAILED'} in {dt:.0f}s")
